@@ -6,6 +6,7 @@ import (
 	"math/rand"
 	"runtime"
 	"sort"
+	"strings"
 	"sync"
 	"sync/atomic"
 	"time"
@@ -29,14 +30,18 @@ type cev struct {
 
 // RunConc runs per-goroutine scripts on one trie concurrently and emits the
 // call/return history ordered by a global atomic counter.
-func RunConc(w *tr.Writer, st *ConcStats, tid int, r *rand.Rand, withMissing bool) {
+func RunConc(w *tr.Writer, st *ConcStats, tid int, r *rand.Rand, withMissing bool, saveStress bool) {
 	w.NextTrace()
 	st.Traces++
 	var db util.NodeDB = util.NewMemoryNodeDB()
 	// sharedSave: the usual arrangement of a block's trie - a memory level over the state store - whose changes are saved
 	// INTO that state store while readers of the same trie read through to it
 	var stateDB *util.MemoryNodeDB
-	switch r.Intn(3) {
+	cfg := r.Intn(3)
+	if saveStress {
+		cfg = 2 * r.Intn(2) // never the shared state store (its saves are not judged as snapshots)
+	}
+	switch cfg {
 	case 0:
 		db = util.NewLevelNodeDB(util.NewMemoryNodeDB(), util.NewMemoryNodeDB(), false)
 	case 1:
@@ -49,7 +54,19 @@ func RunConc(w *tr.Writer, st *ConcStats, tid int, r *rand.Rand, withMissing boo
 	vals := []string{"a", "b", "c"}
 	var initItems []bridge.Item
 	m := map[string]string{}
-	for i := 0; i < 2+r.Intn(5); i++ {
+	if saveStress {
+		// one writer updating deep keys of a ladder of branches (every update replaces half a dozen nodes, one collector call
+		// each) against one saver: a save that is not atomic with respect to an update lands between two of those calls
+		paths = []string{"000000000011", "000000000022", "0000000033", "00000044"}
+		for k := 1; k <= 5; k++ {
+			p := strings.Repeat("00", k) + "11"
+			if _, err := t.Insert(util.Path(p), Val([]byte("a"))); err != nil {
+				panic(err)
+			}
+			m[p] = "a"
+		}
+	}
+	for i := 0; i < 2+r.Intn(5) && !saveStress; i++ {
 		p, v := paths[r.Intn(len(paths))], vals[r.Intn(len(vals))]
 		if _, err := t.Insert(util.Path(p), Val([]byte(v))); err != nil {
 			panic(err)
@@ -80,6 +97,9 @@ func RunConc(w *tr.Writer, st *ConcStats, tid int, r *rand.Rand, withMissing boo
 	}
 	ng := 2 + r.Intn(3)
 	disjoint := r.Intn(3) == 0
+	if saveStress {
+		ng, disjoint = 2, false
+	}
 	var counter int64
 	var mu sync.Mutex
 	var evs []cev
@@ -120,13 +140,19 @@ func RunConc(w *tr.Writer, st *ConcStats, tid int, r *rand.Rand, withMissing boo
 	}
 	var wg sync.WaitGroup
 	var panics int64
+	var updStarted, updFinished int64 // updates (insert / delete) begun and completed so far, all goroutines
 	for g := 0; g < ng; g++ {
 		wg.Add(1)
 		g := g
 		rr := rand.New(rand.NewSource(seeds[g]))
 		nops := 2 + rr.Intn(4)
+		if saveStress {
+			nops = 9
+		}
 		go func() {
 			defer wg.Done()
+			var lastRoot []byte // save-stress: root and completed-update count read after this goroutine's previous save
+			var lastF0 int64
 			for i := 0; i < nops; i++ {
 				p := paths[rr.Intn(len(paths))]
 				if disjoint {
@@ -136,6 +162,12 @@ func RunConc(w *tr.Writer, st *ConcStats, tid int, r *rand.Rand, withMissing boo
 					}
 				}
 				op := []string{"ins", "ins", "del", "get", "get", "iter", "changes", "save"}[rr.Intn(8)]
+				if saveStress {
+					op = []string{"ins", "ins", "del"}[rr.Intn(3)]
+					if g == 1 {
+						op = "save"
+					}
+				}
 				v := vals[rr.Intn(len(vals))]
 				switch rr.Intn(4) {
 				case 0:
@@ -149,10 +181,14 @@ func RunConc(w *tr.Writer, st *ConcStats, tid int, r *rand.Rand, withMissing boo
 				res := Guard(func() string {
 					switch op {
 					case "ins":
+						atomic.AddInt64(&updStarted, 1)
 						_, err := t.Insert(util.Path(p), Val([]byte(v)))
+						atomic.AddInt64(&updFinished, 1)
 						return ResClass(err)
 					case "del":
+						atomic.AddInt64(&updStarted, 1)
 						_, err := t.Delete(util.Path(p))
+						atomic.AddInt64(&updFinished, 1)
 						return ResClass(err)
 					case "get":
 						val, err := t.GetNodeValueRaw(util.Path(p))
@@ -183,7 +219,7 @@ func RunConc(w *tr.Writer, st *ConcStats, tid int, r *rand.Rand, withMissing boo
 						snapshot(ret, root, snap)
 						return "ok"
 					default:
-						if rr.Intn(4) == 0 {
+						if !saveStress && rr.Intn(4) == 0 {
 							// a save whose deadline expires while the store is still writing: the call returns, the abandoned
 							// write goes on by design; nothing is judged here but the absence of a race and of a panic
 							ctx, cancel := context.WithTimeout(context.Background(), 200*time.Microsecond)
@@ -199,9 +235,27 @@ func RunConc(w *tr.Writer, st *ConcStats, tid int, r *rand.Rand, withMissing boo
 							return "ok"
 						}
 						fresh := util.NewMemoryNodeDB()
+						f0 := atomic.LoadInt64(&updFinished)
+						var rootBefore []byte
+						r1known := true
+						if saveStress {
+							// the saver must not synchronise with the writer just before its save (reading the root waits for an
+							// update in flight): it uses the root it read after its previous save, which is still the root at the
+							// start of this call if no update has completed since
+							rootBefore, r1known = lastRoot, lastRoot != nil && f0 == lastF0
+							if !r1known {
+								rootBefore = nil
+							}
+						} else {
+							rootBefore = append([]byte(nil), t.GetRoot()...)
+						}
 						if err := t.SaveChanges(context.Background(), fresh, false); err != nil {
 							return "err"
 						}
+						nf := atomic.LoadInt64(&updFinished)
+						rootAfter := append([]byte(nil), t.GetRoot()...)
+						overlapping := atomic.LoadInt64(&updStarted) - f0 // updates that can have changed the trie between the two root reads
+						lastF0, lastRoot = nf, append([]byte{}, rootAfter...)
 						// the saved change set names no root: it is the one saved node no other saved node refers to
 						snap := map[string][]byte{}
 						refd := map[string]bool{}
@@ -226,13 +280,28 @@ func RunConc(w *tr.Writer, st *ConcStats, tid int, r *rand.Rand, withMissing boo
 								roots = append(roots, []byte(k))
 							}
 						}
-						switch len(roots) {
-						case 0: // nothing saved (no change yet, or the trie became empty): not judged as a snapshot
-						case 1:
-							snapshot(ret, roots[0], snap)
-						default:
+						// The saved change set names no root.  The trie's root just before and just after the save are both states
+						// inside the call's window; the save is a snapshot if the saved nodes, laid over the base nodes, hold a
+						// complete trie below one of them (a change set may also hold nodes that an update created and a later one
+						// abandoned: garbage, not an atomicity matter).  If neither is complete although at most one update
+						// overlapped the save, the save is torn.  With more overlapping updates the state saved can be one in
+						// between, whose root is unknown here: such a save is not judged as a snapshot.
+						for _, cand := range [][]byte{rootAfter, rootBefore} {
+							if len(cand) == 0 {
+								continue
+							}
+							snapshot(ret, cand, snap)
+							if ret["snapok"] == true {
+								return "ok"
+							}
+						}
+						ret["snap"], ret["snapok"], ret["items"] = false, true, []any{}
+						switch {
+						case r1known && overlapping <= 1 && len(rootBefore) > 0 && len(rootAfter) > 0: // (an empty trie is trivially complete)
 							ret["snap"], ret["snapok"] = true, false
 						}
+						_ = roots // (a single saved node nobody refers to is NOT taken for the root: it can be an abandoned node while the
+						// real root is a node of the base, after an update that restored an earlier state)
 						return "ok"
 					}
 				})
